@@ -133,6 +133,22 @@ func concOps() []concOp {
 			}
 			return hx(p.CompressedBytes())
 		}},
+		{"h2c_long_dst", func(sh *shared, arg int) string { // distinct oversize (> 255 bytes) tags: the tag is hashed first
+			dst := bytes.Repeat([]byte{byte(0x41 + arg)}, 301+arg)
+			f := h2c.Secp256k1_XMD_SHA256_SSWU_RO
+			if arg%2 == 1 {
+				f = h2c.Secp256k1_XMD_SHA256_SSWU_NU
+			}
+			p, err := f(dst, msg(arg))
+			if err != nil {
+				return "err"
+			}
+			return hx(p.CompressedBytes())
+		}},
+		{"uniform_wide", func(sh *shared, arg int) string { // 49..64-byte uniform strings (the c * 2^384 term of the wide reduction)
+			b := append(append([]byte{}, msg(arg)...), ent(arg)...)
+			return hx(secp256k1.NewIdentityPoint().SetUniformBytes(b[:49+arg*5]).CompressedBytes())
+		}},
 		{"schnorr_sign", func(sh *shared, arg int) string {
 			sig, err := sh.spriv.Sign(&fixedReader{ent(arg)}, msg(arg), nil)
 			if err != nil {
